@@ -584,7 +584,7 @@ func genPipelines(o *out, cb map[string]*ast.File, all []funcInfo) {
 						kind, what = "checkMissingWhere", ""
 					case "BuildQuerySQL":
 						kind, what = "buildQuerySQL", ""
-					case "saveAssociation", "preload", "preloadEntryPoint", "deleteAssociation":
+					case "saveAssociations", "preload", "preloadEntryPoint":
 						kind, what = "nested", f.Name
 					}
 				}
@@ -896,6 +896,12 @@ func genMisc(o *out, pkgs map[string]map[string]*ast.File, all []funcInfo) {
 	}
 	b.WriteString(strings.Join(das, ",\n") + "\n]\n\n")
 
+	for _, fi := range all {
+		if fi.name == "DB.AddError" {
+			body := src(fi.decl.Body)
+			fmt.Fprintf(&b, "/-- gorm.go AddError: assigns db.Error only inside `if err != nil`, never to nil -/\ndef addErrorSrc : String := %s\n\n", lstr(body))
+		}
+	}
 	// processor.Execute: source text of the SQL/Vars reset guard
 	for _, fi := range all {
 		if fi.name == "processor.Execute" {
